@@ -336,6 +336,54 @@ func (s *Solver) SolveAll(sp *Specs, obls []*Obligation, workers int) {
 		first = []int{0, 1, 2}
 	}
 	var jobs []func()
+	// Phase 0: the frame obligations of one return share their path condition; their conjunction is
+	// put to the back ends as one query. If it is discharged every member is (PC and not (g1 and ... gn)
+	// unsatisfiable implies PC and not gi unsatisfiable); otherwise the members are solved one by one
+	// as usual, so a failing frame obligation is still reported under its own name.
+	if !s.All {
+		type bkey struct {
+			d  *Decls
+			id int
+		}
+		batches := map[bkey][]*Obligation{}
+		var order []bkey
+		for _, o := range obls {
+			if o.Batch != 0 && o.Result == nil {
+				k := bkey{o.Decls, o.Batch}
+				if _, ok := batches[k]; !ok {
+					order = append(order, k)
+				}
+				batches[k] = append(batches[k], o)
+			}
+		}
+		for _, k := range order {
+			g := batches[k]
+			if len(g) < 3 {
+				continue
+			}
+			jobs = append(jobs, func() {
+				var goals []Term
+				for _, o := range g {
+					goals = append(goals, o.Goal)
+				}
+				all := *g[0]
+				all.Goal = And(goals...)
+				all.Kind = "frame-batch"
+				r := s.solveWith(sp, &all, []int{0, 1}, nil)
+				if r.Status != "unsat" {
+					return
+				}
+				for _, o := range g {
+					c := *r
+					c.Secs = r.Secs / float64(len(g))
+					c.Backend = r.Backend + " (one query for all frame obligations of a return)"
+					o.Result = &c
+				}
+			})
+		}
+		par(jobs)
+		jobs = nil
+	}
 	for _, o := range obls {
 		if o.Result == nil {
 			o := o
